@@ -10,7 +10,9 @@ func init() {
 			"e2e monitor: a case = one registration pushed through parseRegMessage + ingestRegistration (+ Proxy when it became valid) with loopback listeners " +
 			"on permitted and forbidden addresses; distinct = (scenario kind, policy mode, registration source, v4/v6 split); further e2e classes: histories of one secret with different coverts " +
 			"and back-dated records, admitted literal without listener (failure path of Proxy), and registrations on connecting transports (mock + real DTLS transport, Connect succeeds) " +
-			"whose sessions ingest itself hands to Proxy – per (policy, covert class, source) the evidence counts cases, successful Connects and observed Proxy runs",
+			"whose sessions ingest itself hands to Proxy – per (policy, covert class, source) the evidence counts cases, successful Connects and observed Proxy runs. " +
+			"reloaddiff monitor: a case = (reload step of a configuration chain, covert): the reloaded manager's decision is compared with a manager freshly started from the new file; " +
+			"per (reload kind, covert class) the evidence counts decisions and decisions that changed across the reload",
 		Assumptions: []string{
 			"policy entries are canonical CIDRs / valid regexps (malformed entries are C19's subject); no v4-mapped IPv6 CIDRs are generated",
 			"'inside a subnet' is judged on the address net.Dial connects to: v4-mapped literals are unmapped, zones are dropped",
@@ -21,6 +23,7 @@ func init() {
 			{Name: "decision", Pkg: "./pkg/station/lib", Run: "^TestVerifC06Decision$", Drivers: []string{"lib"}, Exports: []string{"cdtls"}, TimeoutQ: 10 * time.Minute, TimeoutT: 40 * time.Minute},
 			{Name: "reload", Pkg: "./pkg/station/lib", Run: "^TestVerifC06ReloadConsistency$", Drivers: []string{"lib"}, Exports: []string{"cdtls"}, Race: true, TimeoutQ: 10 * time.Minute, TimeoutT: 40 * time.Minute,
 				RaceFilter: func(r RaceReport) bool { return r.Has("station/lib.") }},
+			{Name: "reloaddiff", Pkg: "./pkg/station/lib", Run: "^TestVerifC06ReloadDifferential$", Drivers: []string{"lib"}, Exports: []string{"cdtls"}, TimeoutQ: 10 * time.Minute, TimeoutT: 40 * time.Minute},
 			{Name: "e2e", Pkg: "./pkg/station/lib", Run: "^TestVerifC06EndToEnd$", Drivers: []string{"lib"}, Exports: []string{"cdtls"}, TimeoutQ: 10 * time.Minute, TimeoutT: 40 * time.Minute},
 		},
 	})
